@@ -6,7 +6,7 @@ ROOT = os.path.dirname(os.path.dirname(os.path.abspath(__file__)))
 
 # id -> (technique, level text, level note, design ref)
 CLAIMED = {
-    "C01": ("TLA+ TdmsSegments (explicit layer): TLC enumerates well-formed files in three exhaustive slices; every "
+    "C01": ("TLA+ TdmsSegments (explicit layer): TLC enumerates well-formed files in four exhaustive slices (structure, types, properties, order x properties); every "
             "state (= every file prefix) replayed into TdmsFile.read/open and compared with the specification's view",
             "Model checking of the file-as-history state machine within small bounds plus spec->code conformance on "
             "every state: objects, group/channel order, implied groups, data type, length, bit-exact values for all "
@@ -15,15 +15,18 @@ CLAIMED = {
             "(harness/enc.py, harness/proj.py), value concretisation per type.",
             "DESIGN.md 3.3, 5/C01"),
     "C02": ("TLA+ TdmsSegments: TLC model checking of reader model vs explicit meaning over all valid encodings; "
-            "every reachable encoded file replayed into TdmsFile.read/open (spec->code conformance)",
+            "every reachable encoded file - and its DAQmx twin, padded-metadata, many-properties, 260-clone and 130-fold '
+            "repeated variants - replayed into TdmsFile.read/open (spec->code conformance)",
             "Exhaustive model checking of the segment-inheritance state machine within small bounds (2-3 segments, "
-            "2 channels, all per-object encodings x flags), and every state of that model replayed into the real "
+            "2 channels, all per-object encodings x flags, strings, mixed byte order and raw data layout, a "
+            "type-change slice, random walks of 7-10 segments), and every state of that model replayed into the real "
             "reader eagerly and lazily with the abstract view compared; forbidden encodings must raise.",
             "Trusted: TLC, the rewrite rules R1-R4 as the definition of a valid encoding, the independent byte "
             "encoder harness/enc.py and projection harness/proj.py.",
             "DESIGN.md 3.3, 5/C02"),
     "C03": ("TLA+ TdmsOpenFile: access-path table, chunk streams and offsets (invariant PathsAgree) checked by TLC; every "
-            "enumerated two-channel shape replayed through all access paths x memmap x raw_timestamps x path/stream",
+            "enumerated two-channel shape (plain, DAQmx, terse encodings, scaled x) replayed through all access paths x "
+            "memmap x raw_timestamps x path/pathlib/stream/file object/gzip object",
             "Model checking of the stream structure (offsets = running count, streams cover the channel) and "
             "spec->code conformance: every enabled access path (slice, ellipsis, read_data, data, iteration, integer "
             "indexing, both chunk streams, unscaled read, raw_data) must return the file's content, eager and lazy.",
@@ -49,14 +52,16 @@ CLAIMED = {
     "C19": ("TLA+ TdmsData.FootprintBounded checked by TLC; traces of real stream reads (recording stream under "
             "TdmsFile.open) validated by TLC against Trace_Footprint.tla (code->spec trace validation)",
             "Model checking of the algorithm model's footprint plus trace validation: for every enumerated shape, all "
-            "windows and integer indices are executed on one open file and each step's (position,size) reads must "
+            "windows, slices and integer indices are executed on one open file (a plain or a genuine raw stream), narrow "
+            "first requests on freshly opened files, and each step's (position,size) reads must "
             "lie in the chunks overlapping the request (own bytes only for contiguous layout) plus one 4-byte tag "
             "per segment touched; an index into the cached chunk must fetch nothing.",
             "Trusted: TLC, byte layout logged by the independent encoder, the recording stream.",
             "DESIGN.md 3.4, 5/C19"),
     "C06": ("TLA+ TdmsTruncate over TdmsLayout: TLC checks the reader model of clamping / dropped segment / partial final "
             "chunk against the statement's invariants for every cut of every enumerated file; every (file, cut) is "
-            "replayed on the concrete bytes, eagerly and lazily",
+            "replayed on the concrete bytes, eagerly and lazily, also as DAQmx twin and with carried no-data objects; "
+            "TdmsSystem walks (write, crash, defragment, append, read)",
             "Exhaustive crash-point enumeration within bounds (1-2 segments, two channels, widths 1/4/8/16 and string, "
             "1-3 chunks, both layouts, metadata-less last segment, explicit offset or marker; every byte offset) with "
             "model checking of the reader model and spec->code conformance judged by the statement's own invariants "
@@ -65,7 +70,8 @@ CLAIMED = {
             "DESIGN.md 3.5, 5/C06"),
     "C07": ("TLA+ TdmsWriter composed with TdmsSegments (INSTANCE): TLC checks RoundTrip (reader model over emitted "
             "segments = what the caller asked to store) over all programs; every program executed with the real "
-            "TdmsWriter and read back",
+            "TdmsWriter (awkward concrete names, a process history, refused calls as stuttering steps, caller arrays "
+            "compared before/after) and read back",
             "Model checking of the writer state machine (sessions, automatic root/group objects, ordering) and of the "
             "value-class -> TDMS-type case analysis, plus spec->code conformance for every enumerated program: "
             "channel data/dtype/length, property values and TDMS types (via independent parser), names, versions, "
@@ -85,13 +91,15 @@ CLAIMED = {
             "replayed on disk with and without index (encoder- and TdmsWriter-produced) and index-only",
             "Model checking of the position-translation arithmetic (IndexTransparent, IndexPositions, "
             "IndexOnlyComplete) plus spec->code conformance: read / open / read_metadata give identical projections "
-            "with and without the index; the index alone (path and stream) gives the same metadata and every data "
-            "read raises.",
+            "with and without the index (also for the DAQmx twin and padded metadata); the index alone (open / read / "
+            "read_metadata / constructor from path, stream, file object) gives the same metadata and every data "
+            "request - also one selecting no value - raises.",
             "Trusted: TLC, TdmsLayout arithmetic, encoder's index twin.",
             "DESIGN.md 3.6, 5/C09"),
     "C10": ("TLA+ TdmsDefragment (defragment as derived writer behaviour over TdmsSegments): TLC checks DefragPreserves "
             "over all enumerated source files; every source file run through the real TdmsWriter.defragment and "
-            "compared with source and with the specification's view of the copy",
+            "compared with source, with the specification's view of the copy and with the encoder's known content "
+            "(sources in both byte orders)",
             "Model checking of the copy's view against the source's view plus spec->code conformance on every source "
             "file: groups, channels, lengths, bit-identical raw values, raw-precision timestamp properties, data type "
             "when non-empty, scaled data; path and stream destinations, with and without index.",
@@ -111,7 +119,8 @@ CLAIMED = {
             "with eager/lazy reads, windows, chunk streams and every cut of the final chunk",
             "Model checking of the position arithmetic (InBounds, TruncOK) plus spec->code conformance on every "
             "configuration: format-changing and digital-line scalers, 1-2 buffers with padding and differing lengths, "
-            "1-2 channels x 1-2 scalers, multiple chunks, both byte orders; unscaled dict reads, raw_scaler_data, "
+            "1-2 channels x 1-2 scalers (in one buffer or split over two), multiple chunks, both byte orders, a "
+            "short-reading raw stream; unscaled dict reads, raw_scaler_data, "
             "scaled reads of the last scaler, all windows, both chunk streams, truncation to complete rows.",
             "Trusted: TLC, encoder's DAQmx index encoding, independent fixed-width decode at computed positions.",
             "DESIGN.md 3.8, 5/C11"),
@@ -121,7 +130,8 @@ CLAIMED = {
             "microsecond and read back identically (1/16 stratified + fragile neighbours in quick, all 10^6 x 4 "
             "seconds in thorough), scalar = array, within one unit of the exact floor, monotone along sorted "
             "(seconds, fractions) incl. unit-boundary neighbours, raw timestamps bit-exact through write/read/"
-            "defragment, time_track for dyadic offsets.",
+            "defragment (multi-segment, eager / lazy / indexed one by one, big-endian files laid out by the encoder), "
+            "conversions as a file hands them out, time_track for dyadic offsets.",
             "Trusted: TLC, Apalache, BigNat arithmetic, the harness's biasing of signed quantities; time_track for "
             "non-dyadic floats is not covered.",
             "DESIGN.md 3.10, 5/C12"),
@@ -155,7 +165,9 @@ CLAIMED = {
             "checks NoLibraryFd / OnlyDataWhileLazy / ReadAfterCloseRaises on all behaviours; every behaviour replayed "
             "with an input built for its fault while /proc/self/fd and caller streams are inspected after each step",
             "Exhaustive model checking of the lifecycle state machine (read, read_metadata, open, data read, close, "
-            "with-exit, repeated close, read after close, writer with-block with normal and raising body) plus "
+            "with-exit, repeated close, read after close, chunk generators resumed after close, the constructor with "
+            "keep_open, defragment, an interrupt while reading, writer with-block with normal and raising body, "
+            "re-entered writer, write after the block) plus "
             "spec->code conformance of every behaviour: which descriptors on the scratch .tdms/.tdms_index files are "
             "open after each step, which calls raise, caller streams (BytesIO and real files) never closed.",
             "Trusted: TLC, /proc/self/fd as the descriptor table, encoder-built malformed inputs. A raising "
